@@ -274,6 +274,23 @@ class HashOrderedDict(OrderedDict):
         return r
 
 
+def comparison_links(expr):
+    """The single comparisons that a chained comparison lb <= (g <= ub) stands for
+
+    Once g is a number, the chain folds into a comparison with a truth value (0 or 1),
+    so its numeric value says nothing about lb <= g and g <= ub.
+    """
+    e = MX(expr)
+    compare = {OP_LE: lambda a, b: a<=b, OP_LT: lambda a, b: a<b}
+    for op in compare:
+        if e.is_op(op):
+            a, b = e.dep(0), e.dep(1)
+            if any(b.is_op(o) for o in compare):
+                return [compare[op](a, b.dep(0)), b]
+            if any(a.is_op(o) for o in compare):
+                return [a, compare[op](a.dep(1), b)]
+    return [e]
+
 def for_all_primitives(expr, rhs, callback, msg, rhs_type=MX):
     if expr.is_symbolic():
         callback(expr, rhs)
